@@ -112,7 +112,10 @@ def r02_13_init_arguments(ctx, rid='R02.13'):
         changed = False
         for n in f.walk():
             if isinstance(n, ast.Assign) and len(n.targets) == 1 and isinstance(n.targets[0], ast.Name) and n.targets[0].id not in derived:
-                if (isinstance(n.value, ast.Name) and n.value.id in derived) or is_split(n.value, derived):
+                v_ = n.value
+                if (isinstance(v_, ast.Name) and v_.id in derived) or is_split(v_, derived) or (
+                        isinstance(v_, ast.IfExp) and all((isinstance(x, ast.Name) and x.id in derived) or is_split(x, derived)
+                                                          for x in (v_.body, v_.orelse))):
                     derived.add(n.targets[0].id)
                     changed = True
     rebinds = [n for n in f.walk() if isinstance(n, (ast.Assign, ast.AugAssign, ast.AnnAssign)) and n is not binds[0]
@@ -155,7 +158,11 @@ def r02_13_init_arguments(ctx, rid='R02.13'):
         kw = [k for k in c.keywords if k.arg is None]
         ok = len(kw) == 1 and not c.args and len(c.keywords) == 1
         src = kw[0].value if kw else None
-        ok = ok and ((isinstance(src, ast.Name) and src.id in derived) or is_split(src, derived))
+        def given(e):
+            if isinstance(e, ast.IfExp):
+                return given(e.body) and given(e.orelse)
+            return (isinstance(e, ast.Name) and e.id in derived) or is_split(e, derived)
+        ok = ok and src is not None and given(src)
         r.check(ok, '__init__(**<constructed mapping or its split>)', f.key('init-arguments:%d' % inits.index(c)), f.loc(c),
                 '__init__ is not called with exactly the constructed attributes (%s)' % norm(c)[:80])
     if not inits:
